@@ -711,25 +711,45 @@ class InterpProxy(object):
     def interp1d(self, x, y, kind='linear', bounds_error=None, fill_value=float('nan'), **kw):
         if not has_sym(x, y):
             return real_interp.interp1d(x, y, kind=kind, bounds_error=bounds_error, fill_value=fill_value, **kw)
-        if kind != 'linear' or fill_value != 'extrapolate':
-            raise PathAbort("interp1d stub: only linear/extrapolate", kind='engine-gap')
-        _used('interp1d(linear, extrapolate) (piecewise-linear model, sorted by forking)')
+        if kind not in ('linear', 'slinear'):
+            raise PathAbort("interp1d stub: only linear interpolation is modelled", kind='engine-gap')
+        _used('interp1d(linear) (piecewise-linear model incl. extrapolate / fill values, sorted by forking)')
         xs, ys = list(np.asarray(x, dtype=object)), list(np.asarray(y, dtype=object))
         order = sorted_by_fork_idx(xs)
         xs = [xs[i] for i in order]
         ys = [ys[i] for i in order]
         if len(xs) < 2:
             real_interp.interp1d(np.zeros(len(xs)), np.zeros(len(xs)))
+        extrap = isinstance(fill_value, str) and fill_value == 'extrapolate'
+        if not extrap:
+            if bounds_error is None or bounds_error:
+                below = above = None          # out-of-range raises
+            elif isinstance(fill_value, tuple) and len(fill_value) == 2:
+                below, above = fill_value
+            else:
+                below = above = fill_value
 
         def ev(t):
             tt = np.asarray(t, dtype=object)
             out = np.empty(tt.shape, dtype=object)
             for i, tv in enumerate(tt.flat):
+                ltv = lift(tv)
+                if not extrap:
+                    if bool(ltv < xs[0]):
+                        if below is None:
+                            raise ValueError("A value in x_new is below the interpolation range.")
+                        out.flat[i] = below
+                        continue
+                    if bool(ltv > xs[-1]):
+                        if above is None:
+                            raise ValueError("A value in x_new is above the interpolation range.")
+                        out.flat[i] = above
+                        continue
                 k = 0
-                while k < len(xs) - 2 and bool(lift(tv) >= xs[k + 1]):
+                while k < len(xs) - 2 and bool(ltv >= xs[k + 1]):
                     k += 1
                 slope = (ys[k + 1] - ys[k]) / (xs[k + 1] - xs[k])
-                out.flat[i] = ys[k] + slope * (lift(tv) - xs[k])
+                out.flat[i] = ys[k] + slope * (ltv - xs[k])
             return out.view(SymArray)
         return ev
 
@@ -891,6 +911,27 @@ class SignalProxy(object):
     def __getattr__(self, name):
         return getattr(real_signal, name)
 
+    def find_peaks(self, x, *args, **kwargs):
+        if not has_sym(x):
+            return real_signal.find_peaks(x, *args, **kwargs)
+        if args or any(v is not None for v in kwargs.values()):
+            raise PathAbort("find_peaks stub: conditions (height, distance, ...) are not modelled", kind='engine-gap')
+        _used('signal.find_peaks (scipy _local_maxima_1d written out: plateau mid-points, by comparison forks)')
+        v = [lift(a) for a in np.asarray(x, dtype=object)]
+        n = len(v)
+        mids = []
+        i = 1
+        while i < n - 1:
+            if bool(v[i - 1] < v[i]):
+                ahead = i + 1
+                while ahead < n - 1 and bool(v[ahead] == v[i]):
+                    ahead += 1
+                if bool(v[ahead] < v[i]):
+                    mids.append((i + ahead - 1) // 2)
+                    i = ahead
+            i += 1
+        return real_np.array(mids, dtype=real_np.intp), {}
+
     def medfilt(self, volume, kernel_size=None):
         if not has_sym(volume):
             return real_signal.medfilt(volume, kernel_size)
@@ -990,11 +1031,11 @@ MP = MPProxy()
 # ======================================================================================================
 
 _TARGETS = [
-    ('emd.sift', {'np': NP, 'interp': INTERP, 'mp': MP}),
+    ('emd.sift', {'np': NP, 'interp': INTERP, 'mp': MP, 'signal': SIGNAL}),
     ('emd.spectra', {'np': NP, 'sparse': SPARSE, 'signal': SIGNAL}),
     ('emd.cycles', {'np': NP, 'interp': INTERP}),
     ('emd._cycles_support', {'np': NP}),
-    ('emd.utils', {'np': NP}),
+    ('emd.utils', {'np': NP, 'signal': SIGNAL}),
     ('emd.support', {'np': NP}),
     ('emd.logger', {}),
 ]
